@@ -159,6 +159,17 @@ def main():
         pf = dict(coincident=8, axis_offset=48, support_touch_lattice=48, lattice_offset=32, random=48, support_touch_random=48, far=8)
     classes = c01._scale_classes(a.tier, None) + [("rand", "rand")]
     specs = c01.gen_specs(a.tier, a.seed + 104729, pairs, pf, scale_classes=classes)
+    # denser placements for the pairs accepted by the jitted primitives flavour: its simplex projectors have dozens of leaves that the
+    # all-pairs domain reaches too rarely (a seeded wrong argument in one leaf of project_tetra_to_origin was missed without this)
+    prim_pairs = [(x, y) for x in PRIMS for y in PRIMS]
+    if a.tier == "quick":
+        pf2 = dict(axis_offset=14, support_touch_lattice=14, lattice_offset=14, random=10, support_touch_random=10)
+    else:
+        pf2 = dict(axis_offset=80, support_touch_lattice=80, lattice_offset=80, random=60, support_touch_random=60)
+    extra = c01.gen_specs(a.tier, a.seed + 7919, prim_pairs, pf2, scale_classes=[(1.0, 1.0), (1.0, 0.25), (0.25, 1.0)])
+    for k, sp in enumerate(extra):
+        sp["i"] = len(specs) + k
+    specs += extra
     specs += recon_specs(len(specs))
     c01.warm_up(run_c09_scene, c01.warm_specs(specs))
     for sz in (1.0, 0.01, 100.0, 0.25):
